@@ -58,7 +58,7 @@ OPTION_SETS = [[], ['--skip-deduplication'],
                # lattices are filled homogeneously accept any ranges)
                ['@alt-lattice']]
 CACHE_SUFFIXES = ('.volumes.cache', '.surfaces.cache', '.mcnp.cache')
-NAME_SUFFIXES = ('.imcnp', '.i', '', '.v2.inp')
+NAME_SUFFIXES = ('.imcnp', '.i', '', '.v2.inp', '.t4')
 
 
 class Trace:
@@ -141,12 +141,18 @@ class World:
         else:
             out = os.path.join(self.dir, 'inproc_%d.t4' % len(self.steps))
         self.expected_files.add(os.path.basename(out))
-        if os.path.exists(out):
+        if os.path.exists(out) and os.path.abspath(out) not in (
+                os.path.abspath(p_) for p_ in self.paths):
             os.remove(out)
         res = conv.convert_path(self.paths[i], out, self.argv(i, oi),
                                 default_output=(tag == 'default-output'))
         self.steps.append((tag, i, oi))
         got = res.t4_text if res.ok else 'FAILED: ' + str(res.exc_msg)
+        if tag == 'default-output' and got.startswith('FAILED') and \
+                'input file itself' in got:
+            # the default output name of an input called x.t4 is x.t4: the
+            # run is refused by name instead of overwriting the input
+            return
         want = self.fresh_output(i, oi)
         if want.startswith('FAILED') and got.startswith('FAILED'):
             return
